@@ -399,6 +399,11 @@ func (c *Common) Tri(a, b, cc string) (interface{}, error) {
 	return fmt.Sprintf("%v/%v/%v", a, b, cc), nil
 }
 
+// TriCAB and TriBCA answer tri when they are registered with RegisterField(type, "tri", "TriCAB", "c", "a", "b") / (..., "TriBCA",
+// "b", "c", "a"): the Go parameter orders are the two 3-cycles of the declared order (a swap is its own inverse, a cycle is not).
+func (c *Common) TriCAB(cc, a, b string) (interface{}, error) { return c.Tri(a, b, cc) }
+func (c *Common) TriBCA(b, cc, a string) (interface{}, error) { return c.Tri(a, b, cc) }
+
 // Pick echoes its arguments (typed loosely so that the coerced request values arrive unchanged).
 func (c *Common) Pick(i interface{}, e interface{}, in interface{}, ids interface{}, ss interface{}, fs interface{}, m interface{}) (interface{}, error) {
 	c.Xr.record(c.Xn, "pick", map[string]interface{}{"i": i, "e": e, "in": in, "ids": ids, "ss": ss, "fs": fs, "m": m})
